@@ -18,6 +18,13 @@ pub struct CacheMemoryTracker {
 
 type MessageSize = u64;
 
+#[cfg(feature = "verif")]
+pub(crate) fn verif_reset_used_memory() {
+    if let Some(tracker) = CacheMemoryTracker::get_instance() {
+        tracker.used_memory_bytes.store(0, Ordering::SeqCst);
+    }
+}
+
 impl CacheMemoryTracker {
     pub fn initialize(config: &CacheConfig) -> Option<Arc<CacheMemoryTracker>> {
         INSTANCE
